@@ -140,6 +140,7 @@ impl Driver {
 			Op::ToWait => job.to_wait(),
 			Op::Delete => job.delete(),
 			Op::DeleteNow => job.delete_now(),
+			Op::Continue => job.control(Control::ContinueTryGracefulRestart),
 			Op::Run => {
 				let w = world.clone();
 				job.run(move |ctx| {
